@@ -17,7 +17,7 @@ const verifBaseDoc = `{"openapi":"3.0.0","info":{"title":"t","version":"1","lice
 	`"tags":[{"name":"x","externalDocs":{"url":"https://e"}}],"security":[{"sec":[]}],` +
 	`"paths":{"/a/{id}":{"servers":[{"url":"/p"}],"parameters":[{"$ref":"#/components/parameters/Id"}],"get":{"operationId":"get","tags":["x"],"servers":[{"url":"/o"}],"externalDocs":{"url":"https://e"},"parameters":[{"name":"q","in":"query","schema":{"type":"array","items":{"type":"integer"}},"examples":{"e":{"value":[1]}}},{"name":"c","in":"query","content":{"application/json":{"schema":{"type":"object"}}}},{"name":"q","in":"header","schema":{"type":"string"}}],` +
 	`"requestBody":{"$ref":"#/components/requestBodies/B"},"responses":{"200":{"$ref":"#/components/responses/R"},"default":{"description":"d","headers":{"X-H":{"$ref":"#/components/headers/H"}},"content":{"application/json":{"schema":{"$ref":"#/components/schemas/S"},"example":{"a":1}}},"links":{"l":{"$ref":"#/components/links/L"}}}},` +
-	`"callbacks":{"cb":{"$ref":"#/components/callbacks/C"}},"security":[{}]}}},` +
+	`"callbacks":{"cb":{"$ref":"#/components/callbacks/C"},"cbi":{"{$request.body#/v}":{"post":{"parameters":[{"name":"t","in":"query","schema":{"type":"string"}}],"responses":{"200":{"description":"d","headers":{"X-C":{"schema":{"type":"integer"}}}}}}}}},"security":[{}]}}},` +
 	`"components":{"schemas":{"S":{"type":"object","required":["a"],"properties":{"a":{"type":"integer","format":"int32","minimum":0},"n":{"$ref":"#/components/schemas/S"},"l":{"type":"array","items":{"$ref":"#/components/schemas/T"}},"k":{"anyOf":[{"type":"string","maxLength":3},{"type":"integer"}]},"f":{"allOf":[{"type":"string"}],"not":{"type":"integer"}}},"additionalProperties":false,"discriminator":{"propertyName":"a"}},"T":{"oneOf":[{"type":"string","pattern":"^a"},{"type":"number","multipleOf":2}],"default":"a","nullable":true}},` +
 	`"parameters":{"Id":{"name":"id","in":"path","required":true,"schema":{"type":"string"}}},"headers":{"H":{"schema":{"type":"integer"}},"HC":{"content":{"application/json":{"schema":{"type":"integer"}}}}},"requestBodies":{"B":{"required":true,"content":{"application/json":{"schema":{"$ref":"#/components/schemas/S"},"examples":{"ex":{"value":{"a":1}}}},"multipart/form-data":{"schema":{"type":"object","properties":{"f":{"type":"string"}}},"encoding":{"f":{"contentType":"text/plain","style":"form","explode":true,"headers":{"X-E":{"schema":{"type":"string"}}}}}}}}},` +
 	`"responses":{"R":{"description":"d"}},"examples":{"E":{"value":[1]}},"links":{"L":{"operationId":"get","parameters":{"id":"$response.body#/a"}}},"callbacks":{"C":{"{$request.body#/u}":{"post":{"responses":{"200":{"description":"d"}}}}}},` +
@@ -87,7 +87,11 @@ func verifCountNodes(tree any) int {
 	return n
 }
 
-func verifExercise(data []byte, allowExternal bool) {
+func verifExercise(data []byte, allowExternal bool) { verifExerciseKnown(data, allowExternal, "", "") }
+
+// verifExerciseKnown: knownValidate / knownInternalize name a known finding that covers a
+// violation during that phase only (a violation in any other phase is reported).
+func verifExerciseKnown(data []byte, allowExternal bool, knownValidate, knownInternalize string) {
 	// known findings, identified by call site (see known_findings.json)
 	verifKnownAt("C20-marshal-ref-without-target", "Ref).MarshalYAML")
 	verifKnownAt("C20-internalize-nil-map-entry", ".derefHeaders")
@@ -101,9 +105,21 @@ func verifExercise(data []byte, allowExternal bool) {
 		return
 	}
 	verifReach("loaded")
+	if knownValidate != "" {
+		verifKnown(knownValidate, true)
+	}
 	_ = doc.Validate(context.Background())
+	if knownValidate != "" {
+		verifKnown(knownValidate, false)
+	}
 	_, _ = json.Marshal(doc)
+	if knownInternalize != "" {
+		verifKnown(knownInternalize, true)
+	}
 	doc.InternalizeRefs(context.Background(), nil)
+	if knownInternalize != "" {
+		verifKnown(knownInternalize, false)
+	}
 	_, _ = json.Marshal(doc)
 }
 
@@ -265,8 +281,6 @@ func verifH_C20_recursive() {
 	shape := verifChoose("shape", 8)
 	// known findings, identified by the input: unbounded recursion through a self-containing
 	// untyped schema with a value to check, and through a callback that uses itself
-	verifKnown("C20-recursive-schema-unbounded-recursion", shape <= 5)
-	verifKnown("C20-internalize-recursive-callback", shape >= 6)
 	switch shape {
 	case 0:
 		comps = `"schemas":{"Z":{"properties":{"x":{"$ref":"#/components/schemas/Z"}},"default":{}}}`
@@ -286,6 +300,12 @@ func verifH_C20_recursive() {
 		comps = `"callbacks":{"CB":{"{$request.body#/u}":{"post":{"responses":{"200":{"description":"d"}},"callbacks":{"in":{"{$request.body#/v}":{"post":{"responses":{"200":{"description":"d"}},"callbacks":{"again":{"$ref":"#/components/callbacks/CB"}}}}}}}}}}`
 	}
 	text := `{"openapi":"3.0.0","info":{"title":"t","version":"1"},"paths":{},"components":{` + comps + `}}`
-	verifExercise([]byte(text), verifChoose("allowExternal", 2) == 1)
+	kv, ki := "", ""
+	if shape <= 5 {
+		kv = "C20-recursive-schema-unbounded-recursion" // during Validate only
+	} else {
+		ki = "C20-internalize-recursive-callback" // during InternalizeRefs only
+	}
+	verifExerciseKnown([]byte(text), verifChoose("allowExternal", 2) == 1, kv, ki)
 	verifReach("end")
 }
